@@ -89,6 +89,10 @@ func init() {
 		},
 		"vfReach": func(s *State, fr *Frame, fn *ssa.Function, a []Value, d ssa.Value) (Value, bool) {
 			s.reached[strArg(a[0])] = true
+			if s.ex.Cfg.Params["twin"] == 1 {
+				// assert(false) twin: this point must be reachable, i.e. yield a counterexample
+				s.failAssert("twin:"+strArg(a[0]), True, "reachability twin")
+			}
 			return nil, false
 		},
 		"vfBegin": func(s *State, fr *Frame, fn *ssa.Function, a []Value, d ssa.Value) (Value, bool) {
@@ -129,6 +133,8 @@ func init() {
 				s.cfg.MapOrderFork = v != 0
 			case "ticks":
 				s.cfg.Ticks = v
+			case "first-range-in-order":
+				s.cfg.FirstRangeInOrder = v != 0
 			case "now-monotone":
 				s.cfg.NowMonotone = v != 0
 			default:
@@ -138,6 +144,17 @@ func init() {
 		},
 		"vfMerge": func(s *State, fr *Frame, fn *ssa.Function, a []Value, d ssa.Value) (Value, bool) {
 			s.mergeFns = append(s.mergeFns, strArg(a[0]))
+			return nil, false
+		},
+		"vfReplace": func(s *State, fr *Frame, fn *ssa.Function, a []Value, d ssa.Value) (Value, bool) {
+			if s.replFns == nil {
+				s.replFns = map[string]*Closure{}
+			}
+			cl, _ := a[1].(Iface).V.(*Closure)
+			if cl == nil {
+				panic(execAbort{"unsupported", "vfReplace needs a function value"})
+			}
+			s.replFns[strArg(a[0])] = cl
 			return nil, false
 		},
 		"vfTier": func(s *State, fr *Frame, fn *ssa.Function, a []Value, d ssa.Value) (Value, bool) {
@@ -182,11 +199,15 @@ func init() {
 			return Implies(a[0].(*Term), a[1].(*Term)), false
 		},
 		"vfUF": func(s *State, fr *Frame, fn *ssa.Function, a []Value, d ssa.Value) (Value, bool) {
-			return App("uf_"+strArg(a[0]), 64, s.num(a[1])), false
+			t := App("uf_"+strArg(a[0]), 64, s.num(a[1]))
+			s.noteApp(t)
+			return t, false
 		},
 		"vfChoice": func(s *State, fr *Frame, fn *ssa.Function, a []Value, d ssa.Value) (Value, bool) {
 			n := a[0].(*Term)
-			return Const(64, uint64(s.choice(int(n.Val)))), false
+			c := s.choice(int(n.Val))
+			s.choices = append(s.choices, c)
+			return Const(64, uint64(c)), false
 		},
 		"vfConcrete": func(s *State, fr *Frame, fn *ssa.Function, a []Value, d ssa.Value) (Value, bool) {
 			t := s.num(a[0])
@@ -320,22 +341,7 @@ func (s *State) failAssert(id string, neg *Term, msg string) {
 		ob.add(Unsat, true)
 		return
 	}
-	s.sync()
-	vars := s.vars
-	for _, o := range s.arrObjs {
-		if l, ok := s.concreteMax(o.Len); ok && l <= 1024 && o.Arr != nil {
-			base := o.Arr
-			for base.Op == OStore {
-				base = base.A[0]
-			}
-			if base.Op == OArrVar {
-				for q := 0; q < l; q++ {
-					vars = append(vars, Select(base, Const(64, uint64(q))))
-				}
-			}
-		}
-	}
-	r, model := s.solver.CheckModel(vars, neg)
+	r, model := s.solve(s.modelVars(), neg)
 	ob.add(r, false)
 	switch r {
 	case Sat:
@@ -345,6 +351,14 @@ func (s *State) failAssert(id string, neg *Term, msg string) {
 			rec.Notes = append(rec.Notes, fmt.Sprintf("%s=%d", n.Name, Eval(n.T, model, nil, memo)))
 		}
 		rec.Where = s.where()
+		rec.Choices = append([]int{}, s.choices...)
+		rec.UF = map[string][][2]uint64{}
+		for _, ap := range s.apps {
+			if ap.N == 1 {
+				arg := Eval(ap.A[0], model, nil, memo)
+				rec.UF[ap.Name] = append(rec.UF[ap.Name], [2]uint64{arg, model[Label(ap)]})
+			}
+		}
 		for k := range s.knownOn {
 			rec.KnownOn = append(rec.KnownOn, k)
 		}
